@@ -1,5 +1,13 @@
 //! vh-intro: C18.
 mod c18;
+mod client;
+mod tsgen;
+mod im;
+mod query;
+mod sdlm;
+mod value;
+mod vis;
+mod witness;
 
 fn main() {
     let id = std::env::args().nth(1).unwrap_or_default();
